@@ -222,7 +222,11 @@ theorem step_inv (cfg : Cfg) (hc : cfg.allChecked = true) {w : World} (h : Inv w
   | sleep f d => exact addTimer_inv cfg hc h f _ d
   | timeout f d => exact addTimer_inv cfg hc h f _ d
   | deadline f b d => exact addTimer_inv cfg hc h f _ d
-  | bodyStart b => exact h.frame rfl rfl rfl (fun _ => Nat.le_refl _) (Nat.le_refl _)
+  | bodyStart b =>
+    simp only [step]
+    split
+    · exact h
+    · exact h.frame rfl rfl rfl (fun _ => Nat.le_refl _) (Nat.le_refl _)
   | bodyDone b => exact h.frame rfl rfl rfl (fun _ => Nat.le_refl _) (Nat.le_refl _)
   | fiberDead f =>
     refine h.frame rfl rfl rfl ?_ (Nat.le_refl _)
